@@ -30,7 +30,8 @@ ASSUMPTIONS = [
     'clouds; thread interleavings not controlled (serial evaluator)',
 ]
 ESSENTIAL_LABELS = {'all': ['two_arrays', 'one_array', 'angular_checked',
-                            'density_checked', 'variable_h']}
+                            'density_checked', 'variable_h',
+                            'mixed_sign_pressure']}
 SHARD_TIMEOUT = {'quick': 1700, 'thorough': 8 * 3600}
 
 # (module, class, kwargs, central?, acceleration props) -- why symmetric
@@ -170,8 +171,13 @@ def data_strategy(draw, narr, dim):
               for _ in range(n)]
         pos = lambda: [draw(st.integers(8, 32)) / 16.0 for _ in range(n)]  # noqa
         gen = lambda: [draw(st.integers(-16, 16)) / 16.0 for _ in range(n)]  # noqa
+        # pressures of both signs occur in weakly compressible flows
+        # (tensile regions): half of the systems have mixed-sign pressures
+        pk = draw(st.sampled_from(['positive', 'mixed']))
         arrays.append(dict(n=n, x=coords[0], y=coords[1], z=coords[2], h=hs,
-                           m=pos(), rho=pos(), p=pos(), cs=pos(), V=pos(),
+                           m=pos(), rho=pos(),
+                           p=pos() if pk == 'positive' else
+                           [2.0 * v for v in gen()], cs=pos(), V=pos(),
                            u=gen(), v=gen(), w=gen(),
                            tab=[draw(st.integers(8, 32)) / 16.0
                                 for _ in range(8)]))
@@ -293,6 +299,8 @@ def run(s, data, kernel_name):
     varh = len(set(hs.tolist())) > 1
     if varh:
         labels.append('variable_h')
+    if any(min(a['p']) < 0 < max(a['p']) for a in data['arrays']):
+        labels.append('mixed_sign_pressure')
     if k >= len(EQUATIONS):
         mod, name = DENSITY[k - len(EQUATIONS)]
         labels.append('density_checked')
